@@ -35,22 +35,34 @@ Definition has_successful_run (runs : list help_run) (argv : list string) : Prop
 Definition no_dead_links (ids hrefs : list string) : Prop :=
   forall h, In h hrefs -> count_occ string_dec ids h = 1.
 
+(** In one way of running a case: every probed name is accepted iff the help lists it, and nothing is accepted that the
+    help does not list. *)
+Definition mode_ok (documented : list string) (m : mode_obs) : Prop :=
+  (forall n, In n (mo_probed m) -> (In n (mo_accepted m) <-> In n documented)) /\
+  (forall n, In n (mo_accepted m) -> In n documented).
+
+Definition phase_ok (i : inventory) (p : phase_inv) : Prop :=
+  agree (pi_accepted p) (pi_help_struct p) /\
+  (forall n, In n (pi_accepted p) -> has_successful_run (inv_requests i) (request_for_instruction (pi_name p) n)) /\
+  (forall m, In m (pi_modes p) -> mode_ok (pi_help_struct p) m).
+
+(** instructions of suite sections: documented by the section itself or by the phase it refers to *)
+Definition suite_ok (i : inventory) (s : suite_inv) : Prop :=
+  agree (si_accepted s) (suite_documented i s) /\
+  forall n, In n (si_accepted s) ->
+    has_successful_run (inv_requests i) (request_for_suite_instruction (inv_kw i) (si_name s) n) \/
+    exists ph, In ph (si_corresponds s) /\ has_successful_run (inv_requests i) (request_for_instruction ph n).
+
+Definition entity_ok (i : inventory) (e : entity_inv) : Prop :=
+  agree (ei_accepted e) (ei_help_struct e) /\
+  (forall n, In n (ei_accepted e) -> has_successful_run (inv_requests i) (request_for_entity (ei_type e) n)) /\
+  (forall m, In m (ei_modes e) -> mode_ok (ei_help_struct e) m).
+
 (** The whole property, over an inventory of the program. *)
 Definition C20_holds (i : inventory) : Prop :=
-  (* instructions of test-case phases *)
-  (forall p, In p (inv_phases i) ->
-     agree (pi_accepted p) (pi_help_struct p) /\
-     forall n, In n (pi_accepted p) -> has_successful_run (inv_requests i) (request_for_instruction (pi_name p) n)) /\
-  (* instructions of suite sections: documented by the section itself or by the phase it refers to *)
-  (forall s, In s (inv_suite_sections i) ->
-     agree (si_accepted s) (suite_documented i s) /\
-     forall n, In n (si_accepted s) ->
-       has_successful_run (inv_requests i) (request_for_suite_instruction (inv_kw i) (si_name s) n) \/
-       exists ph, In ph (si_corresponds s) /\ has_successful_run (inv_requests i) (request_for_instruction ph n)) /\
-  (* entities of every entity type *)
-  (forall e, In e (inv_entities i) ->
-     agree (ei_accepted e) (ei_help_struct e) /\
-     forall n, In n (ei_accepted e) -> has_successful_run (inv_requests i) (request_for_entity (ei_type e) n)) /\
+  (forall p, In p (inv_phases i) -> phase_ok i p) /\
+  (forall s, In s (inv_suite_sections i) -> suite_ok i s) /\
+  (forall e, In e (inv_entities i) -> entity_ok i e) /\
   (forall t, In t (inv_entity_types_program i) -> exists e, In e (inv_entities i) /\ ei_type e = t) /\
   (* the HTML manual *)
   no_dead_links (inv_html_ids i) (inv_html_hrefs i).
@@ -70,9 +82,14 @@ Fixpoint countb (x : string) (l : list string) : nat :=
   match l with [] => 0 | y :: l' => (if String.eqb y x then 1 else 0) + countb x l' end.
 Definition no_dead_linksb (ids hrefs : list string) : bool := forallb (fun h => Nat.eqb (countb h ids) 1) hrefs.
 
+Definition mode_okb (documented : list string) (m : mode_obs) : bool :=
+  forallb (fun n => Bool.eqb (mem n (mo_accepted m)) (mem n documented)) (mo_probed m) &&
+  subsetb (mo_accepted m) documented.
+
 Definition phase_okb (i : inventory) (p : phase_inv) : bool :=
   agreeb (pi_accepted p) (pi_help_struct p) &&
-  forallb (fun n => has_successful_runb (inv_requests i) (request_for_instruction (pi_name p) n)) (pi_accepted p).
+  forallb (fun n => has_successful_runb (inv_requests i) (request_for_instruction (pi_name p) n)) (pi_accepted p) &&
+  forallb (mode_okb (pi_help_struct p)) (pi_modes p).
 
 Definition suite_okb (i : inventory) (s : suite_inv) : bool :=
   agreeb (si_accepted s) (suite_documented i s) &&
@@ -83,7 +100,8 @@ Definition suite_okb (i : inventory) (s : suite_inv) : bool :=
 
 Definition entity_okb (i : inventory) (e : entity_inv) : bool :=
   agreeb (ei_accepted e) (ei_help_struct e) &&
-  forallb (fun n => has_successful_runb (inv_requests i) (request_for_entity (ei_type e) n)) (ei_accepted e).
+  forallb (fun n => has_successful_runb (inv_requests i) (request_for_entity (ei_type e) n)) (ei_accepted e) &&
+  forallb (mode_okb (ei_help_struct e)) (ei_modes e).
 
 Definition C20_holdsb (i : inventory) : bool :=
   forallb (phase_okb i) (inv_phases i) &&
@@ -104,7 +122,8 @@ Definition phase_tieb (i : inventory) (p : phase_inv) : bool :=
   (if pi_has_dict p
    then forallb (fun c => Bool.eqb (parser_accepts d c) (mem c (pi_accepted p))) (inv_candidates i)
    else match pi_accepted p with [] => true | _ => false end) &&
-  subsetb (pi_accepted p) (inv_candidates i).
+  subsetb (pi_accepted p) (inv_candidates i) &&
+  forallb (fun m => subsetb (mo_probed m) (pi_accepted p) && subsetb (mo_accepted m) (mo_probed m)) (pi_modes p).
 
 Definition suite_tieb (i : inventory) (s : suite_inv) : bool :=
   let d := obs_dict (si_own_dict s) in
@@ -116,7 +135,9 @@ Definition suite_tieb (i : inventory) (s : suite_inv) : bool :=
                     end) (inv_candidates i) &&
   subsetb (si_accepted s) (inv_candidates i).
 
-Definition entity_tieb (e : entity_inv) : bool := agreeb (ei_help_struct e) (ei_help_rendered e).
+Definition entity_tieb (e : entity_inv) : bool :=
+  agreeb (ei_help_struct e) (ei_help_rendered e) &&
+  forallb (fun m => subsetb (mo_accepted m) (mo_probed m)) (ei_modes e).
 
 (** every enumerated help run: the model of the argument parser predicts its exit code, and the enumeration's own
     idea of "asks for something that exists" is the model's *)
@@ -167,7 +188,9 @@ Inductive case :=
 | CLookup (pattern : string) (keys : list string) (obs : lookup_result)
 | CEntity (type name : string) (obs_accepted : bool)
 | CHref (h : string) (obs_count : nat)
-| CTarget (x : cross_ref) (obs_anchor : string).
+| CTarget (x : cross_ref) (obs_anchor : string)
+| CModeInstr (mode phase name : string) (obs_accepted : bool)
+| CModeEntity (mode type name : string) (obs_accepted : bool).
 
 Definition request_eqb (x y : request) : bool :=
   match x, y with
@@ -251,4 +274,24 @@ Definition check_case (i : inventory) (c : case) : bool * bool :=
        Nat.eqb obs_count 1)
   | CTarget x obs_anchor =>
       (String.eqb (html_target x) obs_anchor, true)   (* ties HtmlTargetRenderer to its model; no property clause *)
+  | CModeInstr mode phase name obs_accepted =>
+      match find_phase i phase with
+      | Some p =>
+          match find (fun m => String.eqb (mo_mode m) mode) (pi_modes p) with
+          | Some m => (Bool.eqb obs_accepted (mem name (mo_accepted m)) && mem name (mo_probed m),  (* run = inventory *)
+                       Bool.eqb obs_accepted (mem name (pi_help_struct p)))   (* accepted in this way iff listed *)
+          | None => (false, false)
+          end
+      | None => (false, false)
+      end
+  | CModeEntity mode type name obs_accepted =>
+      match find (fun e => String.eqb (ei_type e) type) (inv_entities i) with
+      | Some e =>
+          match find (fun m => String.eqb (mo_mode m) mode) (ei_modes e) with
+          | Some m => (Bool.eqb obs_accepted (mem name (mo_accepted m)) && mem name (mo_probed m),
+                       Bool.eqb obs_accepted (mem name (ei_help_struct e)))
+          | None => (false, false)
+          end
+      | None => (false, false)
+      end
   end.
